@@ -314,7 +314,8 @@ def isUnboundedArray : CType → Bool
 
 /-- `__is_enum(T)` -/
 def isEnum : CType → Bool
-  | base b _ => b == .enumU || b == .enumUF || b == .enumS || b == .enumSC
+  | base b _ => b == .enumU || b == .enumUF || b == .enumS || b == .enumSC || b == .enumSS || b == .enumUS || b == .enumL
+      || b == .enumULL
   | _ => false
 /-- `__is_class(T)` -/
 def isClass : CType → Bool
@@ -374,7 +375,7 @@ def isUnsigned (t : CType) : Bool :=
 
 /-- `is_convertible_v<T, underlying_type_t<T>>` for an enumeration: only unscoped ones convert implicitly -/
 def enumConvertsToUnderlying : CType → Bool
-  | base b _ => b == .enumU || b == .enumUF
+  | base b _ => b == .enumU || b == .enumUF || b == .enumSS || b == .enumULL
   | _ => false
 /-- `requires is_enum_v<T>` → `not is_convertible_v<T, underlying_type_t<T>>` -/
 def isScopedEnum (t : CType) : Bool := if isEnum t then !enumConvertsToUnderlying t else false
@@ -447,6 +448,7 @@ def typeIdentity (t : CType) : CType := t
 def sizeOfBase : Base → Nat
   | .wchar => 4 | .char8 => 1 | .char16 => 2 | .char32 => 4
   | .enumU => 4 | .enumUF => 2 | .enumS => 4 | .enumSC => 1
+  | .enumSS => 1 | .enumUS => 2 | .enumL => 8 | .enumULL => 8
   | .bool | .char | .schar | .uchar => 1
   | .short | .ushort => 2
   | .int | .uint | .float => 4
@@ -509,6 +511,10 @@ def underlyingBase : Base → Option Base
   | .enumUF => some .short
   | .enumS => some .int
   | .enumSC => some .uchar
+  | .enumSS => some .schar
+  | .enumUS => some .ushort
+  | .enumL => some .long
+  | .enumULL => some .ullong
   | _ => none
 
 /-- `detail::underlying_type<T>`: `requires is_enum_v<T>` → `__underlying_type(T)`, otherwise no member `type` -/
